@@ -42,22 +42,47 @@ def instances(rng, a, nground=3):
     out = []
     for _ in range(nground):
         theta = {}
+        reliable = True
         for p in ps:
             if is_const_param(a, p):
                 e = g.rand_expr(rng, rng.randrange(2), 3, allow_params=rng.random() < 0.3)
                 if operand_position(a, p) and (e[0] == 'Lit' or not g.atomic(e)):
                     e = g.ParE(e) if rng.random() < 0.5 else g.Cn(rng.choice(['N', 'M']))
                 if in_type_position(a, p):
+                    if operand_position(a, p):
+                        reliable = False   # `_ŠČ2.0` -> `3.0` re-lexes as a float: the text is no longer the instance
                     e = g.Lit(rng.choice(['0', '3', '12', 'true']))   # `W<_ŠČ2>` -> `W<3>`: only a literal stays a syntactic instance
                 theta[p] = e
             else:
                 theta[p] = g.rand_type(rng, rng.randrange(3), 3, allow_params=rng.random() < 0.4, exprs=False)
+                if theta[p][0] == 'Dyn' and len(theta[p][1]) > 1 and noplus_position(a, p):
+                    reliable = False
         if len(ps) > 1 and rng.random() < 0.3:
             theta[ps[1]] = theta[ps[0]] if is_const_param(a, ps[1]) == is_const_param(a, ps[0]) else theta[ps[1]]
+        if any(v[0] == 'Dyn' and len(v[1]) > 1 and noplus_position(a, p) for p, v in theta.items()):
+            reliable = False
         if ps and rng.random() < 0.3:
             del theta[ps[0]]   # identity
-        out.append((g.subst(a, theta), theta))
+        out.append((g.subst(a, theta), dict(reliable=reliable, theta={g.PFX + str(p): ('ex' if is_const_param(a, p) else 'ty', g.show(v)) for p, v in theta.items()})))
     return out
+
+
+def noplus_position(a, p):
+    """does type parameter p occur where the grammar takes a type without `+` (target of a
+    reference, pointer, cast or fn return)?  `&_ŠČ0` -> `&dyn A + Send` re-parses differently."""
+    def isp(y):
+        return isinstance(y, tuple) and len(y) > 1 and y[0] == 'P' and y[1] == p
+    def walk(x):
+        if isinstance(x, tuple):
+            if x and x[0] in ('Ref', 'Ptr', 'Cast') and isp(x[-1]):
+                return True
+            if x and x[0] == 'Fn' and isp(x[4]):
+                return True
+            return any(walk(y) for y in x)
+        if isinstance(x, list):
+            return any(walk(y) for y in x)
+        return False
+    return walk(a)
 
 
 def operand_position(a, p):
@@ -111,7 +136,11 @@ def under_proj_or_paren(a):
     return walk(a, False)
 
 
+THETA = {}
+
+
 def gen_cases(rng, tier):
+    THETA.clear()
     cases = []   # (op, fields..., expectation)
     for c in CORPUS:
         cases.append(c)
@@ -143,7 +172,8 @@ def gen_cases(rng, tier):
     for _ in range(n):
         a = g.rand_type(rng, rng.randrange(1, 5), 3)
         for b, theta in instances(rng, a, 2):
-            exp = 'pos' if not under_proj_or_paren(a) else 'any'
+            exp = 'pos' if theta['reliable'] and not under_proj_or_paren(a) else 'any'
+            THETA['\t'.join(('sup_ty', g.show(a), g.show(b)))] = theta['theta']
             cases.append(('sup_ty', g.show(a), g.show(b), exp))
             cases.append(('sup_ty', g.show(a), g.show(g.corrupt(rng, b)), 'any'))
             if rng.random() < 0.2:
@@ -153,6 +183,7 @@ def gen_cases(rng, tier):
         a = g.rand_expr(rng, rng.randrange(1, 4), 3)
         for b, theta in instances(rng, a, 2):
             cases.append(('sup_expr', g.show(a), g.show(b), 'any'))
+            THETA['\t'.join(('sup_expr', g.show(a), g.show(b)))] = theta['theta']
             cases.append(('sup_expr', g.show(a), g.show(g.corrupt(rng, b)), 'any'))
     # unrelated random pairs
     for _ in range(n // 2):
@@ -179,7 +210,7 @@ def run(tier, seed, replay=None):
     reqs = ['\t'.join(c[:-1]) for c in cases]
     resp = cm.run_hook(reqs, exe_hook)
 
-    stats = dict(unsupported=0, crash=0, some=0, none=0, nonexact_equiv=0, known_f5c=0, pos_expected=0, complete_hyps_met=0)
+    stats = dict(unsupported=0, crash=0, some=0, none=0, nonexact_equiv=0, known_f5c=0, pos_expected=0, complete_hyps_met=0, complete_theorem_instances=0)
     model_reqs, idx = [], []
     for i, r in enumerate(resp):
         if r.startswith('(Unsupported'):
@@ -192,6 +223,24 @@ def run(tier, seed, replay=None):
         model_reqs.append('sup\t%s\t%s' % (a, b)); idx.append((i, 'sup'))
         if res.startswith('(Subs'):
             model_reqs.append('sound\t%s\t%s\t%s' % (a, b, res)); idx.append((i, 'sound'))
+    # the completeness theorem as the oracle: parse theta's values through the same hook,
+    # let the model decide C09_complete's hypotheses (cwf theta a, b = apply theta a) and,
+    # for an answer, its conclusion (every entry is theta's value, only parameters of a)
+    vals = sorted({v for rq in reqs for v in THETA.get(rq, {}).values()})
+    vresp = cm.run_hook(['%s\t%s\t%s' % ('sup_ty' if sort == 'ty' else 'sup_expr', txt, txt) for sort, txt in vals], exe_hook) if vals else []
+    vsexp = {}
+    for (sort, txt), r in zip(vals, vresp):
+        if not r.startswith('(Unsupported') and not r.startswith('(Crash'):
+            vsexp[(sort, txt)] = r.split('\t')[0]
+    for i, r in enumerate(resp):
+        th = THETA.get(reqs[i])
+        if th is None or r.startswith('(Unsupported') or r.startswith('(Crash'):
+            continue
+        if any(v not in vsexp for v in th.values()):
+            continue
+        a, b, res = r.split('\t')
+        ths = '(Subs ""%s)' % ''.join(' (Bind "%s" %s)' % (p, vsexp[v]) for p, v in th.items())
+        model_reqs.append('complete\t%s\t%s\t%s\t%s' % (a, b, ths, res)); idx.append((i, 'complete'))
     mresp = cm.run_model(model_reqs, exe_model)
 
     violations, known_lines, nontrivial = [], set(), set()
@@ -233,6 +282,14 @@ def run(tier, seed, replay=None):
                 prop_fail = 'an instance constructed by substitution is not recognised (completeness)'
         if c[-1] == 'pos':
             stats['pos_expected'] += 1
+        if 'complete' in m and m['complete'] != 'nosubs':
+            hyp, concl = m['complete'].split('\t')
+            if hyp == 'true':
+                stats['complete_theorem_instances'] += 1
+                if not is_some:
+                    prop_fail = prop_fail or 'completeness: b = apply(theta, a) with theta meeting the hypotheses of theorem C09_complete, yet no substitution is reported'
+                elif concl != 'true':
+                    prop_fail = prop_fail or 'completeness: the reported substitution differs from theta (conclusion of theorem C09_complete)'
         if c[-1] == 'neg' and is_some:
             prop_fail = prop_fail or 'a mismatch was glossed over (corpus negative answered Some)'
         if prop_fail:
